@@ -671,9 +671,73 @@ func (c *fanoutCase) term() string {
 
 // ---------- ReduceChan ----------
 
+// reducers: mirrored by C18.Check.rfn. Only for the sum is the zero value a left identity.
+type rfn struct{ kind, a, b int }
+
+func (f rfn) eval(r, v int) int {
+	switch f.kind {
+	case 0:
+		return r + v
+	case 1:
+		return r * v
+	case 2:
+		if v > r {
+			return v
+		}
+		return r
+	case 3:
+		if v < r {
+			return v
+		}
+		return r
+	case 4:
+		return r - v
+	case 5:
+		return r
+	case 6:
+		return v
+	default:
+		return r*f.a + v + f.b
+	}
+}
+func (f rfn) coq() string {
+	names := []string{"RSum", "RProd", "RMax", "RMin", "RSub", "RFirst", "RLast"}
+	if f.kind < len(names) {
+		return names[f.kind]
+	}
+	return fmt.Sprintf("(RAffine %s %s)", vhlib.Z(int64(f.a)), vhlib.Z(int64(f.b)))
+}
+func genRfn(r *vhlib.Rng) rfn {
+	k := r.Intn(9)
+	if k >= 7 {
+		if r.Bool() {
+			return rfn{kind: 7, a: 31, b: 1}
+		}
+		return rfn{kind: 7, a: r.Range(-3, 3), b: r.Range(-2, 2)}
+	}
+	return rfn{kind: k}
+}
+
+// inputs for the reducers: negatives, zeros and ones included, lengths 0..8
+func genReduceValues(r *vhlib.Rng) []int {
+	n := r.Range(0, 8)
+	vs := make([]int, n)
+	for i := range vs {
+		switch r.Intn(5) {
+		case 0:
+			vs[i] = []int{0, 1, -1}[r.Intn(3)]
+		case 1:
+			vs[i] = -r.Range(1, 9)
+		default:
+			vs[i] = r.Range(1, 9)
+		}
+	}
+	return vs
+}
+
 type reduceCase struct {
 	nilIn    bool
-	a        int
+	f        rfn
 	planned  []int
 	seed     uint64
 	result   int
@@ -699,9 +763,9 @@ func (c *reduceCase) run() {
 	done := make(chan int, 1)
 	go func() {
 		if in == nil {
-			done <- bc.ReduceChan[int](nil, func(x, v int) int { return x*c.a + v })
+			done <- bc.ReduceChan[int](nil, c.f.eval)
 		} else {
-			done <- bc.ReduceChan[int](in, func(x, v int) int { return x*c.a + v })
+			done <- bc.ReduceChan[int](in, c.f.eval)
 		}
 	}()
 	select {
@@ -892,7 +956,7 @@ func main() {
 		cs := make([]*reduceCase, reps)
 		jobs := make([]func(), reps)
 		for i := range cs {
-			cs[i] = &reduceCase{nilIn: rng.Chance(1, 10), a: rng.Range(-2, 3), planned: genValues(rng), seed: rng.U64()}
+			cs[i] = &reduceCase{nilIn: rng.Chance(1, 10), f: genRfn(rng), planned: genReduceValues(rng), seed: rng.U64()}
 			if cs[i].nilIn {
 				cs[i].planned = nil
 			}
@@ -904,8 +968,8 @@ func main() {
 				w.Violation("ReduceChan", "did not return", map[string]interface{}{"planned": c.planned, "nil": c.nilIn})
 				continue
 			}
-			term := fmt.Sprintf("KReduce %s %s %s %s", vhlib.Bool(c.nilIn), vhlib.Z(int64(c.a)), vhlib.IntList(c.planned), vhlib.Z(int64(c.result)))
-			w.Case(term, "ReduceChan", len(c.planned) > 1, nil, map[string]interface{}{"combinator": "ReduceChan", "a": c.a,
+			term := fmt.Sprintf("KReduce %s %s %s %s", vhlib.Bool(c.nilIn), c.f.coq(), vhlib.IntList(c.planned), vhlib.Z(int64(c.result)))
+			w.Case(term, "ReduceChan", len(c.planned) > 1, nil, map[string]interface{}{"combinator": "ReduceChan", "reducer": c.f.coq(),
 				"planned": c.planned, "nil_in": c.nilIn, "observed": c.result})
 		}
 	}
